@@ -40,6 +40,8 @@ class Shard:
         """sig: stable signature used for known-finding matching and de-duplication."""
         self.nviol += 1
         if len(self.violations) < MAX_VIOL_KEPT:
+            if isinstance(witness, dict) and getattr(self, "usable_cpus", None):
+                witness = dict(witness, usable_cpus=self.usable_cpus)      # part of the environment the violation was seen in
             self.violations.append({"sig": sig, "what": what, "witness": witness})
 
     def inconc(self, what):
@@ -55,6 +57,26 @@ def _run_shard(args):
     modname, prop, tier, seed, params = args
     mod = importlib.import_module(modname)
     s = Shard(prop, tier, seed, params)
+    orig_cpus = None
+    try:
+        # Environment diversity: each shard (and every process it starts) runs on its own seeded subset of the CPUs - all of them, or
+        # 12, 7, 6, 5, 3, 2 - so code that sizes its work by the number of usable CPUs is seen under several counts.
+        if "replay" not in params and os.environ.get("VERIF_AFFINITY", "on") != "off" and hasattr(os, "sched_getaffinity"):
+            orig_cpus = os.sched_getaffinity(0)
+            if len(orig_cpus) >= 8:
+                import random as _random
+                rr = _random.Random("%s|%s|%s|%s" % (prop, tier, seed, params.get("name")))
+                k = rr.choice([len(orig_cpus), len(orig_cpus), 12, 7, 6, 5, 3, 2])
+                k = min(k, len(orig_cpus))
+                os.sched_setaffinity(0, rr.sample(sorted(orig_cpus), k))
+                s.observe("usable_cpus", k)
+                s.usable_cpus = k
+        elif "replay" in params and isinstance(params["replay"], dict) and params["replay"].get("usable_cpus") and hasattr(os, "sched_getaffinity"):
+            orig_cpus = os.sched_getaffinity(0)
+            k = min(len(orig_cpus), int(params["replay"]["usable_cpus"]))
+            os.sched_setaffinity(0, sorted(orig_cpus)[:k])
+    except OSError:
+        pass
     try:
         w = params.get("replay")
         if isinstance(w, dict) and isinstance(w.get("replay"), dict) and "kind" in w["replay"]:
@@ -68,6 +90,11 @@ def _run_shard(args):
         s.inconc("monitor exception in shard %r: %s" % (params.get("name", params), traceback.format_exc()[-1500:]))
     finally:
         cleanup_scratch()
+        if orig_cpus:
+            try:
+                os.sched_setaffinity(0, orig_cpus)
+            except OSError:
+                pass
     return s.export()
 
 
